@@ -56,14 +56,15 @@ Consume ==
               /\ UNCHANGED <<req, store, events, crashes, ended, hashBad, hung>>
          [] e.ev = "publish" ->
               /\ events' = Append(events, [type |-> e.type, by |-> e.by, ik |-> e.ik, txid |-> e.txid,
-                                           target |-> e.target, tacct |-> e.tacct, postings |-> e.postings])
+                                           target |-> e.target, tacct |-> e.tacct, postings |-> e.postings, mval |-> e.mval])
               /\ UNCHANGED <<req, store, resp, crashes, ended, hashBad, hung>>
          [] e.ev = "crash" ->
               /\ crashes' = crashes + 1
               /\ UNCHANGED <<req, store, resp, events, ended, hashBad, hung>>
          [] e.ev = "end" ->
               /\ ended' = TRUE
-              /\ UNCHANGED <<req, store, resp, events, crashes, hashBad, hung>>
+              /\ hung' = (hung \/ e.locks # 0 \/ e.refs # 0 \/ e.unanswered # <<>>)
+              /\ UNCHANGED <<req, store, resp, events, crashes, hashBad>>
          [] e.ev = "hung" ->
               /\ hung' = TRUE
               /\ UNCHANGED <<req, store, resp, events, crashes, ended, hashBad>>
@@ -89,7 +90,7 @@ Failing(rq, st, rs, ev, cr, en, hb, hg) ==
         \cup T("C14_NoIdConsumed", (dry # {}) => TxIdsSequential(st))
         \cup T("C16_EventsFaithful", EventsFaithful(ev, st))
         \cup T("C16_AllPublished", (en /\ cr = 0) => AllPublished(ev, st, rs))
-        \cup T("NoHang", ~hg)
+        \cup T("NothingLeftBehind", ~hg)
 
 ONext ==
     /\ Consume
